@@ -401,6 +401,7 @@ impl<Service: service::Service> NodeState<Service> {
         let node_view = AliveNodeView::<Service> {
             id: *node_id,
             details,
+            config: config.clone(),
             _service: PhantomData,
         };
 
@@ -454,6 +455,8 @@ pub trait NodeView {
 pub struct AliveNodeView<Service: service::Service> {
     id: UniqueNodeId,
     details: Option<NodeDetails>,
+    // the config the node was discovered with, required when the details are not available
+    config: Config,
     _service: PhantomData<Service>,
 }
 
@@ -462,6 +465,7 @@ impl<Service: service::Service> Clone for AliveNodeView<Service> {
         Self {
             id: self.id,
             details: self.details.clone(),
+            config: self.config.clone(),
             _service: PhantomData,
         }
     }
@@ -505,6 +509,7 @@ impl<Service: service::Service> DeadNodeView<Service> {
     ) -> Result<(), NodeCleanupFailure> {
         DeadNodeView(AliveNodeView {
             id,
+            config: details.config().clone(),
             details: Some(details),
             _service: PhantomData::<Service>,
         })
@@ -519,6 +524,7 @@ impl<Service: service::Service> DeadNodeView<Service> {
     ) -> Result<(), NodeCleanupFailure> {
         DeadNodeView(AliveNodeView {
             id,
+            config: details.config().clone(),
             details: Some(details),
             _service: PhantomData::<Service>,
         })
@@ -606,10 +612,12 @@ impl<Service: service::Service> DeadNodeView<Service> {
             .on_drop(|v| v.store(false, Ordering::Relaxed))
             .create()?;
 
+        // when the details of the dead node are already gone, the node still lives in the
+        // domain it was discovered in and not necessarily in the domain of the global config
         let config = if let Some(d) = self.details() {
             d.config()
         } else {
-            Config::global_config()
+            &self.0.config
         };
 
         let cleaner = fail!(from self, when self.acquire_cleaner_lock(&monitor_name, config),
